@@ -14,7 +14,7 @@ MODULES = ["GroupbyVerif.Props.C20"]
 RULE = ("nanops: exhaustive null placements for float arrays of length 1..8 (quick) / 1..12 (thorough) x threads 1..8 x {nansum nanmean nanmin nanmax nanvar "
         "nanstd count} plus seeded random float/int64/int32 arrays up to length 40 and 2-D arrays (both axes, sum/min/max); oracle NumPy's nan-functions "
         "(exact rational arithmetic for mean/var on small integers) and the Lean model of reduce_1d for sum/min/max/count; nb_dot: random int/float matrices "
-        "as ndarray / pandas / polars frames vs the ordinary product; bools_to_categorical: ALL boolean frames up to 4 rows x 3 columns plus random wider "
+        "(float ones also with +-inf / NaN entries, coefficient vectors with zeros) as ndarray / pandas / polars frames vs the ordinary product; bools_to_categorical: ALL boolean frames up to 4 rows x 3 columns plus random wider "
         "ones vs 'label names exactly the true columns'; pretty_cut: integer and decimal edge grids incl. values equal to edges, unsorted edges, nulls vs "
         "'the printed bounds of the assigned bin contain the value'; non-trivial = array with >= 2 elements and >= 2 threads or >= 1 null; "
         "distinct = distinct (helper, input, threads)")
@@ -67,7 +67,11 @@ def gen_cases(tier, rng):
         r, c = rng.randint(0, 6), rng.randint(1, 5)
         fl = rng.random() < 0.5
         mat = [[rng.randint(-9, 9) for _ in range(c)] for _ in range(r)]
-        yield dict(helper="dot", mat=mat, b=[rng.randint(-5, 5) for _ in range(c)], float=fl, container=rng.choice(["ndarray", "pandas", "polars"]))
+        b = [rng.choice([0, 0, rng.randint(-5, 5)]) if rng.random() < 0.4 else rng.randint(-5, 5) for _ in range(c)]
+        if fl and rng.random() < 0.5:
+            # non-finite entries: inf * 0 and nan * 0 are nan in the ordinary product
+            mat = [[rng.choice(["inf", "-inf", "nan"]) if rng.random() < 0.25 else v for v in row] for row in mat]
+        yield dict(helper="dot", mat=mat, b=b, float=fl, container=rng.choice(["ndarray", "pandas", "polars"]))
     for nrows in range(1, 5):
         for ncols in range(1, 4):
             for bits in itertools.product([0, 1], repeat=nrows * ncols):
@@ -205,9 +209,17 @@ def evaluate(case, drv):
         res.update(verdict="ok", detail=None)
         return res
     if h == "dot":
-        a = np.array(case["mat"], dtype=np.float64 if case["float"] else np.int64).reshape(len(case["mat"]), len(case["b"]))
+        a = np.array([[float(v) for v in row] for row in case["mat"]] if case["float"] else case["mat"],
+                     dtype=np.float64 if case["float"] else np.int64).reshape(len(case["mat"]), len(case["b"]))
+        if any(isinstance(v, str) for row in case["mat"] for v in row):
+            res["tags"].append("non-finite")
         b = np.array(case["b"], dtype=np.float64 if case["float"] else np.int64)
-        exp = a @ b
+        with np.errstate(all="ignore"):
+            exp = a @ b
+            # the ordinary product, term by term in column order (what `@` means; BLAS may reorder finite sums, not these small exact ones)
+            exp2 = np.array([sum((a[i, j] * b[j] for j in range(a.shape[1])), start=b.dtype.type(0)) for i in range(a.shape[0])], dtype=exp.dtype)
+        if not np.array_equal(exp, exp2, equal_nan=True):
+            return bad(exp.tolist(), exp2.tolist(), verdict="harness", note="two oracles disagree")
         obj = a
         if case["container"] == "pandas":
             obj = pd.DataFrame(a, columns=[f"c{i}" for i in range(a.shape[1])], index=[f"r{i}" for i in range(a.shape[0])])
@@ -218,7 +230,7 @@ def evaluate(case, drv):
         except Exception as e:  # noqa
             return bad(exp.tolist(), f"error:{type(e).__name__}: {str(e)[:150]}")
         g = np.asarray(got)
-        if g.shape != exp.shape or not np.array_equal(g, exp):
+        if g.shape != exp.shape or not np.array_equal(g, exp, equal_nan=True):
             return bad(exp.tolist(), g.tolist())
         if case["container"] == "pandas" and list(got.index) != list(obj.index):
             return bad("index of the frame", list(got.index))
